@@ -6,7 +6,7 @@ CONSTANTS
   Breaks <- BreaksQ
   Degs <- DegsT
   MaxNpts = 6
-  Acts = {"CvSplit"}
+  Acts = {"CvSplit", "CvSplitJoin"}
   PtKinds = {"gen", "unit"}
   WtKinds = {"none", "gen", "gen2"}
   ExtraNodes <- Extra0
